@@ -49,7 +49,10 @@ def correspondence(ctx):
     for _ in range(ctx.n(900, 15000)):
         seq, descs = hard.rand_problem(rng, nmin=3, nmax=12, kmax=4, kinds=HARD_KINDS)
         try:
-            stub, space, restrs = C15.build(seq, descs)
+            built = vlib.limited(lambda: C15.build(seq, descs), 10, None, skipped)
+            if built is None:
+                continue
+            stub, space, restrs = built
         except Exception as e:
             skipped["build:" + type(e).__name__] = skipped.get("build:" + type(e).__name__, 0) + 1
             continue
@@ -160,9 +163,10 @@ def search(ctx, budget, hints):
     rng = vlib.Rng(ctx.seed + 404)
     out = []
     n = 0
+    tstats = {}
     for _ in range(350 * budget):
-        n += oracle_problem(rng, out)
-    best, hist = {}, {}
+        n += vlib.limited(lambda: oracle_problem(rng, out), 20, 0, tstats)
+    best, hist = {}, {"skipped:" + k: v for k, v in tstats.items()}
     for c in out:
         hist[c["kind"]] = hist.get(c["kind"], 0) + 1
         k = c["kind"]
